@@ -24,6 +24,7 @@ import (
 	"bufio"
 	"context"
 	"encoding/binary"
+	"encoding/json"
 	"errors"
 	"fmt"
 	"net"
@@ -1381,7 +1382,137 @@ func sdTogether(o *common.Out, id string, closeFirst bool) {
 	o.ImplOnly(id, abstract, true)
 }
 
+type SdPark struct {
+	entered chan struct{}
+	release chan struct{}
+}
+
+func (t *SdPark) Wait(ctx context.Context, a *SArgs, r *SReply) error {
+	t.entered <- struct{}{}
+	<-t.release
+	r.Id, r.C = a.Id, a.A*a.B
+	return nil
+}
+
+// sdOddFrames: before anything else the server receives k frames it cannot take as requests (what: a compression type
+// nobody registered, a first byte that is not the protocol's) on connections of their own; later a
+// request stands in its handler when Shutdown (without deadline) is called: Shutdown waits for it, its response is
+// delivered, then Shutdown returns.  Oracle only.  case: odd|<what>|<k>
+func sdOddFrames(o *common.Out, id string, what string, k int) {
+	abstract := fmt.Sprintf("odd|%s|%d", what, k)
+	o.Begin(id, abstract)
+	o.Count("shutdown-after-odd-frames")
+	prevPoll := server.VerifSetShutdownPollInterval(5 * time.Millisecond)
+	defer server.VerifSetShutdownPollInterval(prevPoll)
+	s := server.NewServer()
+	park := &SdPark{entered: make(chan struct{}, 4), release: make(chan struct{})}
+	s.RegisterName("Park", park, "")
+	ln := newPipeListener()
+	served := make(chan error, 1)
+	go func() { served <- s.ServeListener("vpipe", ln) }()
+	<-s.Started
+	body, _ := json.Marshal(map[string]interface{}{"Id": 5, "A": 6, "B": 7})
+	for i := 0; i < k; i++ {
+		pc, err := ln.dial()
+		if err != nil {
+			o.Fail(id, "rig", err.Error(), abstract)
+			return
+		}
+		var h [12]byte
+		h[0], h[3] = 8, 1<<4
+		binary.BigEndian.PutUint64(h[4:], uint64(900+i))
+		fr := refcodec.Build(h, []byte("Park"), []byte("Wait"), nil, body)
+		switch {
+		case strings.HasPrefix(what, "ct"):
+			ct, _ := strconv.Atoi(what[2:])
+			fr[2] |= byte(ct&7) << 2
+		case what == "magic":
+			fr[0] = 9
+		}
+		pc.SetDeadline(time.Now().Add(300 * time.Millisecond))
+		go pc.Write(fr)
+		buf := make([]byte, 4096)
+		for {
+			if _, err := pc.Read(buf); err != nil {
+				break
+			}
+		}
+		pc.Close()
+	}
+	pc, err := ln.dial()
+	if err != nil {
+		o.Fail(id, "rig", err.Error(), abstract)
+		return
+	}
+	defer pc.Close()
+	var h [12]byte
+	h[0], h[3] = 8, 1<<4
+	binary.BigEndian.PutUint64(h[4:], 77)
+	go pc.Write(refcodec.Build(h, []byte("Park"), []byte("Wait"), nil, body))
+	select {
+	case <-park.entered:
+	case <-time.After(3 * time.Second):
+		o.Fail(id, "rig", "the request never reached its handler", abstract)
+		s.Close()
+		return
+	}
+	done := make(chan error, 1)
+	go func() { done <- s.Shutdown(context.Background()) }()
+	early := false
+	select {
+	case <-done:
+		early = true
+	case <-time.After(150 * time.Millisecond):
+	}
+	close(park.release)
+	got := false
+	pc.SetReadDeadline(time.Now().Add(2 * time.Second))
+	hdr := make([]byte, 16)
+	if _, err := io.ReadFull(pc, hdr); err == nil {
+		rest := make([]byte, binary.BigEndian.Uint32(hdr[12:]))
+		if _, err := io.ReadFull(pc, rest); err == nil {
+			if f, err := refcodec.Parse(append(hdr, rest...)); err == nil && binary.BigEndian.Uint64(f.Header[4:]) == 77 && f.Header[2]&0x03 == 0 {
+				got = true
+			}
+		}
+	}
+	if early || !got {
+		o.Fail(id, "read-not-drained", fmt.Sprintf("after %d frame(s) the server could not take (%s): Shutdown returned before the handler of a request read earlier had finished: %v; its response was delivered: %v", k, what, early, got), abstract)
+	}
+	if !early {
+		select {
+		case e := <-done:
+			if e != nil {
+				o.Fail(id, "shutdown-error", fmt.Sprintf("Shutdown without deadline returned %v", e), abstract)
+			}
+		case <-time.After(3 * time.Second):
+			o.Fail(id, "shutdown-hangs", fmt.Sprintf("after %d frame(s) the server could not take (%s), Shutdown did not return although nothing was in progress", k, what), abstract)
+			s.Close()
+		}
+	}
+	select {
+	case e := <-served:
+		if e != server.ErrServerClosed {
+			o.Fail(id, "serve-return", fmt.Sprintf("the serve loop returned %v", e), abstract)
+		}
+	case <-time.After(3 * time.Second):
+		o.Fail(id, "serve-return", "the serve loop did not return", abstract)
+	}
+	o.ImplOnly(id, abstract, true)
+}
+
 func runShutdown(r *common.Rand, tier string, o *common.Out, replay string) {
+	if strings.HasPrefix(replay, "odd|") {
+		p := strings.Split(replay, "|")
+		k, _ := strconv.Atoi(p[2])
+		sdOddFrames(o, "replay", p[1], k)
+		return
+	}
+	if replay == "" {
+		for i, what := range []string{"ct2", "ct5", "ct7", "magic", "ct3", "ct6"} {
+			sdOddFrames(o, fmt.Sprintf("odd%d", i), what, 1+i%2)
+		}
+	}
 	if strings.HasPrefix(replay, "together|") {
 		sdTogether(o, "replay", strings.HasSuffix(replay, "true"))
 		return
